@@ -549,3 +549,18 @@ theorem accepted_decoded {b : Bytes} {r : Req} {x : Resp} (h : parsePdu b r = .a
       repeat' split at h
       all_goals first | (cases h; exact hy) | cases h
   · cases h
+
+/-! ### small facts about the specification's tests -/
+
+theorem reqSid_some {r : Req} {b : Bytes} (h : genuineB r b = true ∨ foreignB r b = true ∨ undecodableB r b = true) :
+    ∃ s, Reply.reqSid r = some s := by
+  cases hs : Reply.reqSid r with
+  | some s => exact ⟨s, rfl⟩
+  | none => simp [genuineB, foreignB, undecodableB, hs] at h
+
+theorem decodable_iff (b : Bytes) : Decodable b = true ↔ ∃ x, decodeResp b = .ok x := by
+  unfold Decodable; cases decodeResp b <;> simp
+
+theorem decodable_ne_nil {b : Bytes} (h : Decodable b = true) : b ≠ [] := by
+  rintro rfl; simp [Decodable, decodeResp, UdsResp.gate, dispatch] at h
+
